@@ -28,9 +28,11 @@ Extras(i) == {<<>>} \cup {<<KV("k", v)>> : v \in XVals(i)} \cup {<<KV("j", StrXV
              \cup {<<KV("j", StrXV(Tok("r", i)))>>}
 BoolXV(n) == [x |-> "bool", s |-> "", n |-> n, m |-> <<>>]
 MinXV(n) == [x |-> "min", s |-> "", n |-> n, m |-> <<>>]
+SMapXV(m) == [x |-> "smap", s |-> "", n |-> 0, m |-> m]
 IMapXV(m) == [x |-> "imap", s |-> "", n |-> 0, m |-> m]
 NestExtras(i) == {<<>>} \cup {<<KV("k", v)>> : v \in {NilXV, StrXV(Tok("s", i)), IMapXV(<<>>), IMapXV(<<KV("n", IntXV(0))>>), IMapXV(<<KV("n", IntXV(3))>>),
-                                                      IMapXV(<<KV("n", IntXV(5))>>), IMapXV(<<KV("j", IntXV(7)), KV("n", IntXV(0))>>)}}
+                                                      IMapXV(<<KV("n", IntXV(5))>>), IMapXV(<<KV("j", IntXV(7)), KV("n", IntXV(0))>>),
+                                                      SMapXV(<<>>), SMapXV(<<KV("n", StrXV(Tok("t", i)))>>), SMapXV(<<KV("j", StrXV(Tok("r", i)))>>)}}
 Hdr(i) == {Msg(r, "", "", c) : r \in {"", "a", "b"}, c \in {"", Tok("x", i)}}
           \cup {Msg("", n, "", c) : n \in {"a", "b"}, c \in {"", Tok("x", i)}}
           \cup {Msg("", "", t, c) : t \in {"a", "b"}, c \in {"", Tok("x", i)}} \cup {NilM}
@@ -51,7 +53,8 @@ Alphabet(i) ==
                         [EmptyM EXCEPT !.calls = <<Call(1, "p", "", "", Tok("u", i))>>], [EmptyM EXCEPT !.calls = <<Call(0, "", "", "", Tok("u", i))>>]}
     [] Fam = "meta" -> {Msg("", "", "", c) : c \in {"", Tok("x", i)}}
                        \cup {[EmptyM EXCEPT !.meta = m] : m \in {Meta("", FALSE, 0, 0, 0), Meta("f1", FALSE, 0, 0, 0), Meta("f2", FALSE, 0, 0, 0),
-                                                                 Meta("", TRUE, 1, 2, 3), Meta("", TRUE, 2, 1, 3), Meta("f1", TRUE, 0, 0, 0), Meta("", TRUE, 3, 3, 6)}}
+                                                                 Meta("", TRUE, 1, 2, 3), Meta("", TRUE, 2, 1, 3), Meta("f1", TRUE, 0, 0, 0), Meta("", TRUE, 3, 3, 6),
+                                                                 Meta("", TRUE, 5, 5, 10), Meta("", TRUE, 0, 20, 20)}}     \* non-monotone totals
     [] Fam = "extra" -> {[EmptyM EXCEPT !.extra = e] : e \in Extras(i)}
     [] Fam = "list" -> {[items |-> <<>>]} \cup {[items |-> <<a>>] : a \in ListItems(i)} \cup {[items |-> <<a, b>>] : a \in ListItems(i), b \in ListItems(i) \ {[EmptyM EXCEPT !.extra = <<KV("k", NilXV)>>]}}
     [] Fam = "map" -> {[kv |-> e] : e \in Extras(i)}
